@@ -50,6 +50,8 @@ def shapes(tier):
     out.append({"what": "sample_logp", "generate_linear": True, "custom": "e_given_P"})
     # a parameter declared as a transformed variable: P = exp(lnP), lnP uniform (density of P is 1/P up to a constant)
     out.append({"what": "sample_logp", "generate_linear": False, "custom": "P_deterministic"})
+    # an informative prior on one of the parameters that is a constant by default (the jitter s)
+    out.append({"what": "sample_logp", "generate_linear": False, "custom": "s_lognormal"})
     out.append({"what": "sample_logp", "generate_linear": True, "history": "float32_first"})
     out.append({"what": "sample_logp", "generate_linear": False, "history": "linear_first"})
     return out
@@ -271,6 +273,10 @@ def _sample_prior(shape):
             P = xu.with_unit(UniformLog("P", 3.0, 300.0), u.day)
             e = xu.with_unit(pm.Beta("e", alpha=pt.switch(pt.lt(P, 20.0), 0.697, 1.12), beta=3.2), u.one)
             return tj.JokerPrior.default(sigma_K0=20 * u.km / u.s, sigma_v=50 * u.km / u.s, pars={"P": P, "e": e})
+    if shape.get("custom") == "s_lognormal":
+        with pm.Model():
+            sj = xu.with_unit(pm.Lognormal("s", 0.0, 0.5), u.km / u.s)
+            return tj.JokerPrior.default(P_min=3 * u.day, P_max=300 * u.day, sigma_K0=20 * u.km / u.s, sigma_v=50 * u.km / u.s, s=sj)
     if shape.get("custom") == "P_deterministic":
         import pytensor.tensor as pt
         with pm.Model():
@@ -333,7 +339,7 @@ def _sample_logp(shape):
         out.append(("sample.logp_is_function_of_row[%d]" % n_terms, z3.BoolVal(not redrawn), "JokerPrior.sample.logp_graph",
                     (lambda m, redrawn=redrawn: {"generate_linear": gl, "redrawn_inputs": redrawn}), []))
     # one log-density term per drawn parameter that has a density: P, e (+ K, v0, offsets with generate_linear)
-    want_terms = 2 + (2 if gl else 0) + (1 if (gl and shape.get("offsets")) else 0)
+    want_terms = 2 + (2 if gl else 0) + (1 if (gl and shape.get("offsets")) else 0) + (1 if shape.get("custom") == "s_lognormal" else 0)
     out.append(("sample.logp_terms_present", z3.BoolVal(n_terms >= want_terms), "JokerPrior.sample.terms", (lambda m: {"generate_linear": gl, "terms": n_terms, "expected": want_terms}), []))
     ok_cols = "ln_prior" in s.tbl.colnames and len(s) == 2
     out.append(("sample.ln_prior_column", z3.BoolVal(bool(ok_cols)), "JokerPrior.sample", d, []))
@@ -411,6 +417,8 @@ def replay(cand):
             P, e = a["P"].to_value(u.day), np.asarray(a["e"])
             if shape.get("custom") == "e_given_P":
                 want = -np.log(P) + st.beta(np.where(P < 20.0, 0.697, 1.12), 3.2).logpdf(e)
+            elif shape.get("custom") == "s_lognormal":
+                want = -np.log(P) + st.beta(0.867, 3.03).logpdf(e) + st.lognorm(s=0.5, scale=1.0).logpdf(a["s"].to_value(u.km / u.s))
             else:
                 want = -np.log(P) + st.beta(0.867, 3.03).logpdf(e)
             if gl:
